@@ -421,7 +421,7 @@ func (k knownFinding) appliesTo(prop string) bool {
 func runReplay(bin, path, scratch string, showLog bool) (map[string]any, string, error) {
 	out := filepath.Join(scratch, "replay.json")
 	cmd := exec.Command(bin, "-test.run", "^TestReplay$", "-test.timeout", "0")
-	cmd.Env = append(os.Environ(), "VERIF_REPLAY="+path, "VERIF_OUT="+out)
+	cmd.Env = append(os.Environ(), "VERIF_REPLAY="+path, "VERIF_OUT="+out, "VERIF_KNOWN="+filepath.Join(verifDir, "known_findings.json"))
 	if showLog {
 		cmd.Env = append(cmd.Env, "VERIF_SHOWLOG=1")
 	}
